@@ -72,6 +72,7 @@ pub struct Report {
     pub parts: Mutex<Vec<Value>>,
     pub assumptions: Mutex<Vec<String>>,
     pub caps_hit: Mutex<Vec<String>>,
+    pub bounds_reached: Mutex<Vec<String>>,
     pub rule: Mutex<String>,
     pub max_depth: AtomicU64,
     pub wall_cap_s: f64,
@@ -104,6 +105,7 @@ impl Report {
             parts: Mutex::new(vec![]),
             assumptions: Mutex::new(vec![]),
             caps_hit: Mutex::new(vec![]),
+            bounds_reached: Mutex::new(vec![]),
             rule: Mutex::new(String::new()),
             max_depth: AtomicU64::new(0),
             wall_cap_s: if tier.thorough() { 3000.0 } else { 100.0 },
@@ -122,6 +124,14 @@ impl Report {
 
     pub fn cap(&self, what: &str) {
         let mut c = self.caps_hit.lock().unwrap();
+        if !c.iter().any(|x| x == what) {
+            c.push(what.to_string());
+        }
+    }
+
+    /// a declared exploration bound (depth) was reached: everything below it was covered completely
+    pub fn bound(&self, what: &str) {
+        let mut c = self.bounds_reached.lock().unwrap();
         if !c.iter().any(|x| x == what) {
             c.push(what.to_string());
         }
@@ -262,7 +272,9 @@ impl Report {
                 "distinct_nontrivial": outcomes.len(),
                 "rule": self.rule.lock().unwrap().clone(),
                 "exhaustive": caps.is_empty(),
+                "exhaustive_note": "true = the declared finite space (closure, or everything up to the declared depth bound / over the declared lattice) was enumerated completely; false = a wall-clock or state cap stopped the enumeration early (see caps_hit)",
                 "caps_hit": caps,
+                "declared_bounds_reached": self.bounds_reached.lock().unwrap().clone(),
                 "max_depth": self.max_depth.load(Ordering::Relaxed),
                 "distinct_outcomes": outcomes,
                 "parts": self.parts.lock().unwrap().clone(),
